@@ -48,6 +48,19 @@ theorem abs_fresh {s : Src.quantizer.Quantizer} (h : Fresh s) :
       have := congrArg _root_.Quantizer.allowed hs; simpa [Tie.Quant.abs] using this.symm
     rw [this]
 
+/-- non-vacuity: `Quantizer::new()` is `Fresh`, has an allowed note and a well-formed cache -/
+example : ∃ s, Src.quantizer.Quantizer.new = some s ∧ Fresh s ∧ C19.CacheOk (Tie.Quant.abs s) ∧ s.allowed = 4095 := by
+  have h := Tie.Quant.new_tie
+  cases hn : Src.quantizer.Quantizer.new with
+  | none => rw [hn] at h; simp at h
+  | some s0 =>
+    rw [hn] at h; simp only [Option.map_some, Option.some.injEq] at h
+    refine ⟨s0, rfl, ?_, ?_, ?_⟩
+    · unfold Fresh; rw [h]
+    · left; rw [h]
+    · have := congrArg _root_.Quantizer.allowed h
+      simpa [Tie.Quant.abs, _root_.Quantizer.new] using this
+
 /-! ## C08 — nearest allowed note in every octave -/
 
 /-- a quantizer without history reports the history-free conversion, whose note is `Pick` over *all* allowed notes
